@@ -471,6 +471,17 @@ func instancePhase(cr *checkResult, update bool) {
 	default:
 		variants = append(append([]instVariant{}, matryerVariants...), testifyVariants...)
 	}
+	if cr.tier == "thorough" {
+		// further template-data combinations (the quick tier's baseline does not list them)
+		if cr.prop != "C03" {
+			variants = append(variants,
+				instVariant{pkg: "mr", template: "matryer", templateData: "{skip-ensure: false, stub-impl: true, with-resets: true}", stub: true, resets: true},
+				instVariant{pkg: "mp", template: "matryer", templateData: "{skip-ensure: true}"})
+		}
+		if cr.prop != "C04" {
+			variants = append(variants, instVariant{pkg: "tu", template: "testify", templateData: "{}"})
+		}
+	}
 	scratch, root, err := generateInstances(variants)
 	if scratch != "" {
 		if os.Getenv("VERIF_KEEP_SCRATCH") != "" {
